@@ -557,10 +557,15 @@ impl Engine for Epochs {
             (Ok(h), Ok(t)) => (h, t),
             _ => return "bad-op".into(),
         };
-        if !SENDERS.contains(&ws[2]) {
+        // senders: the four accounts, or one of the hook contracts itself (`hook0..2`): a registered hook may
+        // well be the one who creates the epoch it is then to be told about
+        let sender = if let Some(k) = ws[2].strip_prefix("hook").and_then(|x| x.parse::<usize>().ok()).filter(|k| *k < NREC) {
+            st.recs[k].clone()
+        } else if SENDERS.contains(&ws[2]) {
+            Addr::unchecked(ws[2])
+        } else {
             return "bad-op".into();
-        }
-        let sender = Addr::unchecked(ws[2]);
+        };
         let op = match parse_op(&ws[3..]) {
             Some(o) => o,
             None => return "bad-op".into(),
@@ -671,6 +676,14 @@ impl Engine for Epochs {
                     }
                     _ => mon.stat("m_epoch_query_past_failed(arithmetic)"),
                 }
+            }
+        }
+        // ---- C18 on a distributor WITH EPOCHS: the stored epoch duration is at least a day after every
+        // operation (the configuration engine has no epochs; this one updates the epoch config between them)
+        if cur.d {
+            mon.check("C18", "config_ok_epoch_duration", cur.ddur >= DAY, || format!("{line}: distributor stores epoch duration {} (epoch {})", cur.ddur, cur.did));
+            if cur.did > 0 && cur.ddur != prev.ddur {
+                mon.stat("d_duration_changed_with_epochs_present");
             }
         }
         // histories of created epochs
@@ -809,7 +822,7 @@ impl Engine for Epochs {
             let far = (p.mgen.max(p.dgen) as u128 + 310 * (p.mdur.max(p.ddur) as u128)).min(u64::MAX as u128) as u64;
             let t = last.max(far);
             let height = if t != last { height0 + 1 } else { height0 };
-            let who = *rng.pick(&SENDERS);
+            let who = if rng.chance(1, 6) { ["hook0", "hook1", "hook2"][rng.below(3) as usize] } else { *rng.pick(&SENDERS) };
             return Some(if step % 2 == 0 { format!("{height} {t} {who} m_create") } else { format!("{height} {t} {who} d_create") });
         }
         // ---- choose the op
@@ -880,7 +893,7 @@ impl Engine for Epochs {
         }
         let t = t as u64;
         let height = if t != last { height0 + 1 } else { height0 };
-        let anyone = *rng.pick(&SENDERS);
+        let anyone = if rng.chance(1, 5) { ["hook0", "hook1", "hook2"][rng.below(3) as usize] } else { *rng.pick(&SENDERS) };
         let admin = if rng.chance(4, 5) { "owner" } else { anyone };
         let cfg_dur = |rng: &mut Rng, short_ok: bool| -> u64 {
             match rng.below(10) {
